@@ -152,6 +152,7 @@ def gen_scenario(rng, prof):
                 a = rng.choice(nodes); b = rng.choice(nodes)
                 out.append(rng.choice([f"cb net drop 1", f"cb net dupl 1", f"cb net corrupt 1", f"cb net reset",
                                        f"cb net drop 1.0", f"cb net dupl 1.0", f"cb net corrupt 1.0",      # rates exactly 1
+                                       f"cb net drop 0", f"cb net dupl 0", f"cb net corrupt 0",            # a rate switched off again
                                        f"cb net drop_in {a}", f"cb net disable {a} {b}", f"cb net disconnect {a}",
                                        f"cb net drop_out {a}"]))
         return out
